@@ -271,3 +271,192 @@ def native_small_scope():
         return ("agree" if m.group(1) == "ok" else "disagree"), tail[:6000]
     finally:
         vlib.remove_scratch(d)
+
+
+def native_derive_search():
+    """Run the small-scope native search on the real derive(Animate) output
+    (contracts/native/verif_derive_native.rs) in a scratch copy of /repo.
+    -> (status, text): 'agree' | 'disagree' | 'error'."""
+    d, r = vlib.make_scratch("n")
+    try:
+        import shutil
+        if not os.path.isdir(os.path.join(r, "tests")):
+            os.makedirs(os.path.join(r, "tests"), exist_ok=True)
+        shutil.copyfile(os.path.join(vlib.VERIF, "contracts/native/verif_derive_native.rs"), os.path.join(r, "tests/verif_derive_native.rs"))
+        env = dict(os.environ)
+        env["CARGO_NET_OFFLINE"] = "true"
+        env["CARGO_TARGET_DIR"] = NATIVE_TARGET
+        env["RUST_BACKTRACE"] = "0"
+        cmd = ["cargo", "test", "--offline", "-p", "mina", "--test", "verif_derive_native", "--", "--nocapture"]
+        try:
+            pr = subprocess.run(cmd, cwd=r, env=env, stdout=subprocess.PIPE, stderr=subprocess.STDOUT, text=True, timeout=1800)
+        except subprocess.TimeoutExpired:
+            return "error", "native derive search timed out"
+        out = pr.stdout
+        m = re.search(r"^test \S*derive_small_scope_search \.\.\. (ok|FAILED)", out, re.M)
+        i = out.find("running ")
+        tail = out[i:] if i >= 0 else out[-3000:]
+        if not m:
+            return "error", tail[-3000:]
+        return ("agree" if m.group(1) == "ok" else "disagree"), tail[:6000]
+    finally:
+        vlib.remove_scratch(d)
+
+
+def native_builder_search():
+    """Run the small-scope native search on the real TimelineBuilderArguments::from
+    (contracts/native/verif_native_builder.rs) in a scratch copy of /repo.
+    -> (status, text): 'agree' | 'disagree' | 'error'."""
+    d, r = vlib.make_scratch("n")
+    try:
+        import shutil
+        p = os.path.join(r, "core/src/timeline.rs")
+        if not os.path.exists(p):
+            return "error", "core/src/timeline.rs missing"
+        shutil.copyfile(os.path.join(vlib.VERIF, "contracts/native/verif_native_builder.rs"), os.path.join(r, "core/src/verif_native_builder.rs"))
+        open(p, "a").write("\n#[cfg(test)]\n#[path = \"verif_native_builder.rs\"]\nmod verif_native_builder;\n")
+        env = dict(os.environ)
+        env["CARGO_NET_OFFLINE"] = "true"
+        env["CARGO_TARGET_DIR"] = NATIVE_TARGET
+        env["RUST_BACKTRACE"] = "0"
+        cmd = ["cargo", "test", "--offline", "--release", "-p", "mina_core", "--lib", "verif_native_builder", "--", "--nocapture"]
+        try:
+            pr = subprocess.run(cmd, cwd=r, env=env, stdout=subprocess.PIPE, stderr=subprocess.STDOUT, text=True, timeout=1800)
+        except subprocess.TimeoutExpired:
+            return "error", "native builder search timed out"
+        out = pr.stdout
+        m = re.search(r"^test \S*builder_order_search \.\.\. (ok|FAILED)", out, re.M)
+        i = out.find("running ")
+        tail = out[i:] if i >= 0 else out[-3000:]
+        if not m:
+            return "error", tail[-3000:]
+        return ("agree" if m.group(1) == "ok" else "disagree"), tail[:6000]
+    finally:
+        vlib.remove_scratch(d)
+
+
+def native_merged_search():
+    """Small-scope native search on the real MergedTimeline (contracts/native/verif_native_merged.rs, public API)."""
+    d, r = vlib.make_scratch("n")
+    try:
+        import shutil
+        os.makedirs(os.path.join(r, "core/tests"), exist_ok=True)
+        shutil.copyfile(os.path.join(vlib.VERIF, "contracts/native/verif_native_merged.rs"), os.path.join(r, "core/tests/verif_native_merged.rs"))
+        env = dict(os.environ)
+        env["CARGO_NET_OFFLINE"] = "true"
+        env["CARGO_TARGET_DIR"] = NATIVE_TARGET
+        env["RUST_BACKTRACE"] = "0"
+        cmd = ["cargo", "test", "--offline", "--release", "-p", "mina_core", "--test", "verif_native_merged", "--", "--nocapture"]
+        try:
+            pr = subprocess.run(cmd, cwd=r, env=env, stdout=subprocess.PIPE, stderr=subprocess.STDOUT, text=True, timeout=1800)
+        except subprocess.TimeoutExpired:
+            return "error", "native merged search timed out"
+        out = pr.stdout
+        m = re.search(r"^test \S*merged_small_scope_search \.\.\. (ok|FAILED)", out, re.M)
+        i = out.find("running ")
+        tail = out[i:] if i >= 0 else out[-3000:]
+        if not m:
+            return "error", tail[-3000:]
+        return ("agree" if m.group(1) == "ok" else "disagree"), tail[:6000]
+    finally:
+        vlib.remove_scratch(d)
+
+
+def native_prepare_search():
+    """Small-scope native search on the real prepare_frame (contracts/native/verif_native_prepare.rs, public API)."""
+    d, r = vlib.make_scratch("n")
+    try:
+        import shutil
+        os.makedirs(os.path.join(r, "core/tests"), exist_ok=True)
+        shutil.copyfile(os.path.join(vlib.VERIF, "contracts/native/verif_native_prepare.rs"), os.path.join(r, "core/tests/verif_native_prepare.rs"))
+        env = dict(os.environ)
+        env["CARGO_NET_OFFLINE"] = "true"
+        env["CARGO_TARGET_DIR"] = NATIVE_TARGET
+        env["RUST_BACKTRACE"] = "0"
+        cmd = ["cargo", "test", "--offline", "--release", "-p", "mina_core", "--test", "verif_native_prepare", "--", "--nocapture"]
+        try:
+            pr = subprocess.run(cmd, cwd=r, env=env, stdout=subprocess.PIPE, stderr=subprocess.STDOUT, text=True, timeout=1800)
+        except subprocess.TimeoutExpired:
+            return "error", "native prepare_frame search timed out"
+        out = pr.stdout
+        m = re.search(r"^test \S*prepare_frame_search \.\.\. (ok|FAILED)", out, re.M)
+        i = out.find("running ")
+        tail = out[i:] if i >= 0 else out[-3000:]
+        if not m:
+            return "error", tail[-3000:]
+        return ("agree" if m.group(1) == "ok" else "disagree"), tail[:6000]
+    finally:
+        vlib.remove_scratch(d)
+
+
+def native_dur_search():
+    """A4' cross-check on the real std Duration::as_secs_f32 (contracts/native/verif_native_dur.rs)."""
+    d, r = vlib.make_scratch("n")
+    try:
+        import shutil
+        os.makedirs(os.path.join(r, "core/tests"), exist_ok=True)
+        shutil.copyfile(os.path.join(vlib.VERIF, "contracts/native/verif_native_dur.rs"), os.path.join(r, "core/tests/verif_native_dur.rs"))
+        env = dict(os.environ)
+        env["CARGO_NET_OFFLINE"] = "true"
+        env["CARGO_TARGET_DIR"] = NATIVE_TARGET
+        env["RUST_BACKTRACE"] = "0"
+        cmd = ["cargo", "test", "--offline", "--release", "-p", "mina_core", "--test", "verif_native_dur", "--", "--nocapture"]
+        try:
+            pr = subprocess.run(cmd, cwd=r, env=env, stdout=subprocess.PIPE, stderr=subprocess.STDOUT, text=True, timeout=1800)
+        except subprocess.TimeoutExpired:
+            return "error", "native duration search timed out"
+        out = pr.stdout
+        m = re.search(r"^test \S*dur_search \.\.\. (ok|FAILED)", out, re.M)
+        i = out.find("running ")
+        tail = out[i:] if i >= 0 else out[-3000:]
+        if not m:
+            return "error", tail[-3000:]
+        return ("agree" if m.group(1) == "ok" else "disagree"), tail[:6000]
+    finally:
+        vlib.remove_scratch(d)
+
+
+NATIVE_SEARCHES = {
+    "native_dur_search": {"run": native_dur_search, "function": "std Duration::as_secs_f32 (assumption A4')",
+                          "clause": "n as f32 / 1e9 is monotone in [0,1] for ALL 10^9 nanosecond counts (exhaustive); as_secs_f32(s,n) == s as f32 + n as f32/1e9 and monotone over neighbouring samples",
+                          "bounded": "nanoseconds: exhaustive; (secs, nanos): every s < 2^23 with 6 nanosecond values each (sampled)",
+                          "count_re": r"(\d+) \(secs, nanos\) samples"},
+    "native_prepare_search": {"run": native_prepare_search, "function": "prepare_frame",
+                              "clause": "position == get_position's (0 when not started), index brackets it (hint_ok), flag == not started || first forward pass; None iff no keyframes",
+                              "bounded": "1..40 master keyframes on a 1/64 grid (sorted, repeats allowed), 401 lists per size, 6 timing configurations, t on a 1/8 grid in [-1,12]",
+                              "count_re": r"prepare_frame search: (\d+) keyframe lists"},
+    "native_merged_search": {"run": native_merged_search, "function": "MergedTimeline::{update,start_with,delay,duration,repeat,cycle_duration,clone,from}",
+                             "clause": "merged update == components applied in order (standalone clones), start_with reaches every component, delay=min, duration=max, repeat=max, cycle=common-or-None, single wrap transparent",
+                             "bounded": "0..12 components: n=1 every point of a 5120-point grid, n=2 a 1/77 subgrid, n=3..12 3000 pseudo-random lists each (fixed seed); order-sensitive component updates; 5 times; with/without start_with",
+                             "count_re": r"merged small-scope search: (\d+) component lists"},
+    "native_builder_search": {"run": native_builder_search, "function": "TimelineBuilderArguments::from",
+                              "clause": "real builder arguments == sorted keyframes / matching boundary_times / same multiset, for every insertion order in scope",
+                              "bounded": "every insertion order of n<=8 keyframes (distinct positions, and one repeated position for n<=7); n in {9,10,12,16}: rotations, reversals, 20000 pseudo-random permutations each",
+                              "count_re": r"builder order search: (\d+) insertion orders"},
+    "native_derive_search": {"run": native_derive_search, "function": "derive(Animate) expansion: update / start_with / accessors",
+                             "clause": "generated update == per animated field assign iff the field's own sub-timeline has a value at prepare_frame's frame, all else untouched (real callees, no stubs)",
+                             "bounded": "struct with 3 animated fields + 1 excluded; n<=3 keyframes at distinct positions of {0,1/2,1} in every insertion order, every subset of fields per keyframe, 6 timing configurations, with/without start_with, t on a 1/4 grid in [-0.5,7]",
+                             "count_re": r"derive small-scope search: (\d+) timelines"},
+}
+
+
+def native_record(pid, name, cache):
+    """Run (once per process) a native small-scope search and turn it into an evidence record (kind bounded)."""
+    spec = NATIVE_SEARCHES[name]
+    if name not in cache:
+        cache[name] = spec["run"]()
+    st, txt = cache[name]
+    m = re.search(spec["count_re"], txt or "")
+    rec = {"engine": "native", "id": name, "kind": "bounded", "function": spec["function"], "clause": spec["clause"], "solver": "native execution",
+           "bounded": spec["bounded"], "checks": int(m.group(1)) if m else 1, "checks_ok": 0, "solver_s": 0.0, "assumes": []}
+    if st == "agree":
+        rec.update(verdict="pass", detail=(m.group(0) if m else ""), checks_ok=rec["checks"])
+    elif st == "disagree":
+        payload = {"property": pid, "obligation": name, "kind": name, "native_output": txt, "native_confirmed": True,
+                   "how_to_replay": "./check %s --replay <this file>" % pid}
+        rec.update(verdict="fail", detail=txt[-700:], failed_checks=[name + "::disagreement"], native_confirmed=True,
+                   replay_file=vlib.write_replay(pid, name, payload))
+    else:
+        rec.update(verdict="undecided", detail="native search could not run: " + (txt or "")[-400:])
+    return rec
+
